@@ -56,3 +56,38 @@ Example C11_example :
   /\ is_err (snd (load_policy k_rbac s1 None)) = true
   /\ snd (enforce_ex_m k_rbac (fst (load_policy k_rbac s1 None)) [1003; 1008; 1011]%N) = Ok (true, Some 0%nat).
 Proof. vm_compute. repeat split; reflexivity. Qed.
+
+(* ---------------------------------------------------------------------------------------------------------------
+   Of the SOURCE: the control skeleton of CoreEnforcer.load_policy (casbin/core_enforcer.py) - the candidate model, the try
+   block, the order load / sort / clear / link, the single commit `self.model = new_model`, the rollback condition
+   `auto_build_role_links and need_to_rebuild`, the re-raise - is re-translated on every run into a program of the language
+   of LoadLang.v (coq/gen/LoadPolicyGen.v; every statement must be one of the recognised steps); LoadTie.v proves that the
+   interpreter run on it computes Mgmt.load_policy - the function every theorem above is about - for every kind of model,
+   every adapter content and every adapter fault, on every enforcer state whose current policy re-links without error
+   (which the invariant `Inv` of the theorems above implies). *)
+From PyCasbin Require LoadLang LoadTie.
+From PyCasbinGen Require LoadPolicyGen.
+
+Theorem C11_source_load_policy : forall k s fa, snd (build_role_links k s) = None ->
+  LoadTie.run_load_policy k s fa = load_policy k s fa.
+Proof. exact LoadTie.tie_load_policy. Qed.
+Print Assumptions C11_source_load_policy.
+
+Theorem C11_source_load_policy_inv : forall k s fa, Inv k s ->
+  LoadTie.run_load_policy k s fa = load_policy k s fa.
+Proof.
+  intros k s fa HI. apply LoadTie.tie_load_policy.
+  destruct (Inv_shape k s HI) as [Hsh Hsh2].
+  destruct HI as [[Hg [Hag _]] [[Hg2 [Hag2 _]] Hab]].
+  exact (proj2 (build_role_links_inv k s Hg Hag Hg2 Hag2 Hsh Hsh2 Hab)).
+Qed.
+Print Assumptions C11_source_load_policy_inv.
+
+(* hence, of the regenerated source: a reload that raises leaves rules and role links as they were *)
+Theorem C11_source_failed_reload_restores_state : forall k s fa s' v,
+  Inv k s -> LoadTie.run_load_policy k s fa = (s', v) -> is_err v = true -> Inv k s' /\ same_rules s s'.
+Proof.
+  intros k s fa s' v HI H He. rewrite (C11_source_load_policy_inv k s fa HI) in H.
+  exact (failed_reload k s fa s' v HI H He).
+Qed.
+Print Assumptions C11_source_failed_reload_restores_state.
